@@ -19,7 +19,7 @@
     correspondence run evaluates on every generated history). *)
 From Coq Require Import List String Bool Arith NArith Relations.
 From Verif Require Import Caco.Load Caco.LoadProofs Caco.Build Caco.BuildProofs Caco.BuildGen Gen.CacoBuild.
-From Verif Require Import Caco.LoadSessionGen Caco.BuildSession Caco.BuildSessionProofs Caco.BuildParse Caco.BuildSessionGen.
+From Verif Require Import Caco.LoadSessionGen Caco.BuildSession Caco.BuildSessionProofs Caco.BuildParse Caco.BuildLinks Caco.BuildSessionGen.
 Import ListNotations.
 Local Open Scope string_scope.
 
@@ -417,6 +417,57 @@ Theorem C10_kept_parse_removed_file_refuted :
   r1 = BLoadErr [EStat "p0/n.go"] /\ r2 = BOk /\ e2 = ["p0/a"; "p1/b"].
 Proof. exact kept_parse_removed_file_refuted. Qed.
 Print Assumptions C10_kept_parse_removed_file_refuted.
+
+(** ** Sources that are symbolic links (Caco/BuildLinks.v)
+
+    The stat of a source is its [lstat]; for a link, the link's OWN size,
+    mtime, mode and target text.  [C10_digest_determines_output] rests on the
+    entry a file set writes for a source and the digest of that source node
+    being made of the same value: *)
+Theorem C10_src_entry_is_digested_stat : forall L rules src always now out n st st' f e,
+  find_node f L = Some n -> ntype n = TSrc -> nname n = f ->
+  file_entry L src out f = inl e ->
+  visit L rules src always now n st = inl st' ->
+  exists s, lookup f src = Some s /\ e = ESrc f s /\ lookup f (b_memo st') = Some (DSrc f s).
+Proof. exact src_entry_is_digested_stat. Qed.
+Print Assumptions C10_src_entry_is_digested_stat.
+
+(** ... which the current source is held to: from [buildNodeDigest] (the
+    digests), [fileSet.build] (the entries), [fileSet.fileNodes] and
+    [checkSameBuilt] the same stat calls are reached through the package's call
+    graph - [os.Lstat] with [os.Readlink], never [os.Stat]. *)
+Theorem C10_stat_kind_consistent : stat_kind_consistentb = true.
+Proof. exact gen_stat_kind_consistent. Qed.
+Print Assumptions C10_stat_kind_consistent.
+
+(** What lies behind a link - a dependency of the set or not, inside the
+    source tree or outside - is no input of a build. *)
+Theorem C10_target_edit_changes_nothing : forall always ts w tg tg',
+  let '(lw1, e1, r1) := lbuild always ts (mkLW w tg) in
+  let '(lw2, e2, r2) := lbuild always ts (mkLW w tg') in
+  bw_world lw1 = bw_world lw2 /\ e1 = e2 /\ r1 = r2.
+Proof. exact target_edit_changes_nothing. Qed.
+Print Assumptions C10_target_edit_changes_nothing.
+
+(** An output that records the size and mtime of the file BEHIND a link
+    while the digest covers the link's lstat only: equal digests (a valid cache
+    hit, nothing executes), different outputs. *)
+Theorem C10_read_through_link_refuted :
+  let w0 := empty_world lk_rules lk_src in
+  let '(w1, e1, r1) := build_with false ["p0/links"] w0 in
+  let '(w2, e2, r2) := build_with false ["p0/links"] w1 in
+  let tg := [("p0/other.lnk", (9, 1002))]%N in
+  let tg' := [("p0/other.lnk", (21, 1010))]%N in
+  r1 = BOk /\ e1 = ["p0/links"] /\ r2 = BOk /\ e2 = [] /\
+  map fst (w_cache w1) = map fst (w_cache w2) /\
+  content_at (w_out w1) "p0/links.fileset" = content_at (w_out w2) "p0/links.fileset" /\
+  content_at (w_out w1) "p0/links.fileset" =
+    Some (CList [ESrc "p0/listed.txt" (mkStat 7 1001 420 "");
+                 ESrc "p0/other.lnk" (mkStat 12 1005 134218239 "unlisted.txt")]) /\
+  through_content tg (content_at (w_out w1) "p0/links.fileset") <>
+  through_content tg' (content_at (w_out w2) "p0/links.fileset").
+Proof. exact read_through_link_refuted. Qed.
+Print Assumptions C10_read_through_link_refuted.
 
 (** ** Non-vacuity: a concrete workspace and history. *)
 Local Open Scope N_scope.
